@@ -189,7 +189,7 @@ func (f *Frame) inferLoopInvariants(li *loopInfo, b *ssa.BasicBlock, phis []*ssa
 		if p == nil {
 			continue
 		}
-		if p.IsTrue() || u.quickUnsat(append(append([]*Term{}, u.facts...), preState.reach, tb.Not(p))) {
+		if p.IsTrue() || u.quickUnsat(append(append(append([]*Term{}, u.axioms...), u.facts...), preState.reach, tb.Not(p))) {
 			alive = append(alive, c)
 		}
 	}
@@ -203,7 +203,18 @@ func (f *Frame) inferLoopInvariants(li *loopInfo, b *ssa.BasicBlock, phis []*ssa
 		names[k] = v
 	}
 	nsym := u.nsym
+	np, nb := len(u.ptrs), len(u.b2s)
+	ptrSeen := map[[2]int]bool{}
+	for k, v := range u.ptrSeen {
+		ptrSeen[k] = v
+	}
 	rollback := func() {
+		u.ptrs = u.ptrs[:np]
+		u.b2s = u.b2s[:nb]
+		u.ptrSeen = map[[2]int]bool{}
+		for k, v := range ptrSeen {
+			u.ptrSeen[k] = v
+		}
 		for _, t := range u.facts[nf:] {
 			delete(u.factSeen, t.id)
 		}
@@ -259,7 +270,7 @@ func (f *Frame) inferLoopInvariants(li *loopInfo, b *ssa.BasicBlock, phis []*ssa
 				if p.IsTrue() {
 					continue
 				}
-				if !u.quickUnsat(append(append([]*Term{}, u.facts...), bk.st.reach, tb.Not(p))) {
+				if !u.quickUnsat(append(append(append([]*Term{}, u.axioms...), u.facts...), bk.st.reach, tb.Not(p))) {
 					ok = false
 					break
 				}
